@@ -133,15 +133,24 @@ class C08(Monitor):
         self._v = None
 
     # -- spaces -------------------------------------------------------------------
+    DEAD_KM = (1, 2)
+
     def nprog(self):
-        return 300 if self.tier == "quick" else 600
+        return (300 if self.tier == "quick" else 600) + 4 * len(self.DEAD_KM) ** 2
 
     def programs(self):
         out = []
         for c in spaces.with_modes(spaces.prog_Pa()):
             out.append(c)
         # a spread over the whole stratum rather than its first rows
-        return spaces.spread(out, self.nprog())
+        out = spaces.spread(out, 300 if self.tier == "quick" else 600)
+        # functions with 1-2 unreachable lines after `return`: before 3.10 they decode to
+        # an AdditionalLine with several additional offsets (a tuple that must stay one)
+        for k in self.DEAD_KM:
+            for m in self.DEAD_KM:
+                for src in spaces._dead_sources(k, m):
+                    out.append({"k": "src", "s": "Lx", "src": src, "mode": "exec", "opt": 0})
+        return out
 
     def cases(self):
         if getattr(self, "stage", 1) == 2:
